@@ -16,7 +16,7 @@ pub fn build(tier: Tier) -> CheckDef {
         rule: "explicit-state BFS (stateright) over the real ElfStream with a fault-injecting environment: from every reachable state, every op (and opening), a fault at each I/O call index x {read error, premature EOF, short-then-EOF, seek error} x {transient, permanent}; the search continues from the post-fault state to a fixpoint so every later query in every later state is checked: a call under or after a fault returns Err or exactly the fault-free answer (slice parser as truth), and never panics".into(),
         assumptions: vec![
             "fault-free truth = the slice parser's answer on the same bytes (C07 establishes their equivalence)".into(),
-            "ops on SHF_COMPRESSED caller-supplied headers are excluded from the comparison (typed stream views read the raw range by design)".into(),
+            "for ops outside C07's scope (SHF_COMPRESSED sections, empty section header table) the fault-free truth is the stream's own answer to the same query on a fresh fault-free stream".into(),
         ],
         spaces,
         abort_is_violation: true,
